@@ -52,7 +52,23 @@ def proj(det):
             nums = [num(det.num_pcs or 0), _f(det._change_score[-1]), num(len(det._change_score))]
     except Exception as ex:  # noqa
         tag = "projection failed: " + type(ex).__name__
-    return {"state": st(det.drift_state), "since": int(since), "total": int(total), "recs": r, "nums": nums, "tag": tag}
+    return {"state": st(det.drift_state), "since": int(since), "total": int(total), "recs": r, "nums": nums, "tag": tag, "thr": _thr(det, name)}
+
+
+def _thr(det, name):
+    """the critical value the detector currently compares its statistic with ("None" when there is none / it cannot be read)"""
+    try:
+        if name in ("KdqTreeStreaming", "KdqTreeBatch"):
+            return _f(det._critical_dist) if det._critical_dist is not None else "None"
+        if name == "NNDVI":
+            last = getattr(det, "_verif_last", None)
+            return _f(last[1]) if last else "None"
+        if name in ("HDDDM", "CDBD"):
+            t = det.total_batches
+            return _f(det.thresholds[t]) if t in det.thresholds else "None"
+    except Exception:  # noqa
+        pass
+    return "None"
 
 
 def seed(s, t):
